@@ -22,6 +22,7 @@ import (
 	"google.golang.org/protobuf/encoding/prototext"
 	"google.golang.org/protobuf/proto"
 	"google.golang.org/protobuf/reflect/protoreflect"
+	"google.golang.org/protobuf/reflect/protoregistry"
 	"google.golang.org/protobuf/types/known/anypb"
 )
 
@@ -908,4 +909,9 @@ func fpIdent(name string) string {
 		return "`" + name + "`"
 	}
 	return name
+}
+
+// protoregistryFind looks a generated message type up by full name.
+func protoregistryFind(name protoreflect.FullName) (protoreflect.MessageType, error) {
+	return protoregistry.GlobalTypes.FindMessageByName(name)
 }
